@@ -73,7 +73,6 @@ type smRig struct {
 	resetSent   map[int64]int64 // final size of the first RESET_STREAM, -1 if none
 	resetCalled map[int64]bool
 	inflight    map[int64][]smSentFrame // pnum -> STREAM frames
-	stale       map[int64]bool          // the pipe was released while bytes were parked in s.inbuf
 	inHighRec   map[int64]int64         // like inHigh / inFinal, but only frames the stream recorded
 	inFinalRec  map[int64]int64         // (frames arriving after CloseRead / RESET_STREAM are discarded unseen)
 }
@@ -103,7 +102,7 @@ func smNewRig(cfg [7]int64, prop int) *smRig {
 		sawEOF: map[int64]bool{}, written: map[int64]int64{}, peerMSD: map[int64]int64{}, peerMaxData: cfg[3],
 		advMSD: map[int64]int64{}, advMaxData: conf.maxConnReadBufferSize(), sentHigh: map[int64]int64{},
 		resetSent: map[int64]int64{}, resetCalled: map[int64]bool{}, inflight: map[int64][]smSentFrame{},
-		stale: map[int64]bool{}, inHighRec: map[int64]int64{}, inFinalRec: map[int64]int64{}}
+		inHighRec: map[int64]int64{}, inFinalRec: map[int64]int64{}}
 }
 
 func (r *smRig) pump() {
@@ -399,13 +398,8 @@ func smStep(rp **smRig, op string, o smOut, prop int) string {
 		}
 		pay := smEncode(func(w *packetWriter) { w.appendResetStreamFrame(s.id, code, final) })
 		pre := r.preRecv(s)
-		parked := len(s.inbuf) > s.inbufoff
 		n := r.c.handleResetStreamFrame(r.now, appDataSpace, pay)
 		res := afterFrame(s, n, len(pay))
-		if parked && !pre.reset && strings.HasPrefix(res, "ok") {
-			r.stale[int64(s.id)] = true
-			r.oracleDangling(o, s, op, true)
-		}
 		r.oracleRecv(o, s, pre, final, true, true, res, op)
 		return res
 	case t[0] == "rstop" && len(t) == 3:
@@ -482,12 +476,7 @@ func smStep(rp **smRig, op string, o smOut, prop int) string {
 		if s == nil {
 			return "bad-op"
 		}
-		parked := len(s.inbuf) > s.inbufoff
 		s.CloseRead()
-		if parked && !s.IsWriteOnly() {
-			r.stale[int64(s.id)] = true
-			r.oracleDangling(o, s, op, false)
-		}
 		return "ok" + tail(s)
 	case t[0] == "closewrite" && len(t) == 2:
 		s := stream(1)
@@ -572,16 +561,9 @@ func smStep(rp **smRig, op string, o smOut, prop int) string {
 func (r *smRig) doRead(o smOut, s *Stream, n int, op string) string {
 	id := int64(s.id)
 	buf := make([]byte, n)
-	fast := len(s.inbuf) > s.inbufoff
 	k, err := s.Read(buf)
-	if !fast {
-		r.stale[id] = false
-	}
-	staleRead := fast && r.stale[id]
 	var res string
 	switch {
-	case err == nil && staleRead:
-		res = fmt.Sprintf("ok stale %d", k)
 	case err == nil:
 		res = "ok " + vu.Hex(buf[:k])
 	case err.Error() == "EOF":
@@ -597,7 +579,7 @@ func (r *smRig) doRead(o smOut, s *Stream, n int, op string) string {
 	}
 	// ---- oracle C19 / C32 (receive side)
 	if r.prop == 19 || r.prop == 32 {
-		for i := 0; i < k && !staleRead; i++ {
+		for i := 0; i < k; i++ {
 			if buf[i] != smByteIn(id, r.inData[id]+int64(i)) {
 				o.Fail("", fmt.Sprintf("%s: Read on stream %d returned byte %#x at stream offset %d, peer sent %#x", op, id, buf[i], r.inData[id]+int64(i), smByteIn(id, r.inData[id]+int64(i))))
 				break
@@ -703,8 +685,9 @@ func (r *smRig) oracleRecv(o smOut, s *Stream, pre smPre, end int64, fin, isRese
 	}
 }
 
-// oracleDangling: bytes parked in s.inbuf must stay backed by a chunk the stream still owns.
-func (r *smRig) oracleDangling(o smOut, s *Stream, op string, byReset bool) {
+// oracleDangling: bytes parked in s.inbuf must stay backed by a chunk the stream still owns
+// (a released chunk goes back to pipebufPool and is overwritten by its next user).
+func (r *smRig) oracleDangling(o smOut, s *Stream, op string) {
 	if len(s.inbuf) <= s.inbufoff {
 		return
 	}
@@ -716,13 +699,7 @@ func (r *smRig) oracleDangling(o smOut, s *Stream, op string, byReset bool) {
 			return // still owned
 		}
 	}
-	desc := fmt.Sprintf("%s: %d unread bytes of stream %d parked in Stream.inbuf alias a pipebuf that was recycled into pipebufPool; later fast-path Reads return whatever reuses the chunk", op, len(s.inbuf)-s.inbufoff, int64(s.id))
-	switch {
-	case r.prop == 19:
-		o.Fail("c19-inbuf-aliases-recycled-pipebuf", desc)
-	case r.prop == 32 && byReset:
-		o.Fail("c32-inbuf-aliases-recycled-pipebuf-after-reset", desc)
-	}
+	o.Fail("", fmt.Sprintf("%s: %d unread bytes of stream %d parked in Stream.inbuf alias a pipebuf the stream no longer owns (recycled into pipebufPool); later fast-path Reads return whatever reuses the chunk", op, len(s.inbuf)-s.inbufoff, int64(s.id)))
 }
 
 func (r *smRig) oracleSentStream(o smOut, id, off int64, data []byte, fin bool) {
@@ -814,6 +791,29 @@ func (r *smRig) oracleFate(o smOut, sfs []smSentFrame, lost bool, op string) {
 // oracleState: invariants of the real structs after every op.
 func (r *smRig) oracleState(o smOut, op string) {
 	of := &r.c.streams.outflow
+	if r.prop == 19 || r.prop == 32 {
+		for _, id := range r.ids {
+			r.oracleDangling(o, r.streams[id], op)
+		}
+	}
+	if r.prop == 20 {
+		// connection-level credit conservation: what has been handed back to the peer (applied to the
+		// next MAX_DATA or still pending) is the configured window plus, per stream, the bytes the
+		// application consumed or holds in its fast-path buffer (the final size once the stream is reset).
+		f := &r.c.streams.inflow
+		want := r.c.config.maxConnReadBufferSize()
+		for _, id := range r.ids {
+			s := r.streams[id]
+			if s.inresetcode != -1 {
+				want += s.insize
+			} else {
+				want += s.in.start + int64(len(s.inbuf))
+			}
+		}
+		if got := f.newLimit + f.credit.Load(); got != want {
+			o.Fail("", fmt.Sprintf("%s: connection flow-control credit not conserved: newLimit+credit=%d, window + bytes consumed=%d", op, got, want))
+		}
+	}
 	if r.prop == 20 {
 		if of.used > of.max {
 			o.Fail("", fmt.Sprintf("%s: connOutflow used=%d > max=%d", op, of.used, of.max))
